@@ -138,7 +138,134 @@ def specPieces (box : Bound Q) (isOpen : Bool) (inp : List (Pt Q)) : List (List 
 
 def parseMls (ts : Toks) : Option (List (List (Pt UInt64)) × Toks) := ptss ts
 
-/-- `line <open> <box> <pts> => <mls> <idem> <unmod>` -/
+/-! ### tolerance of the rounding-affected branch
+
+  Error analysis (u = 2⁻⁵³, M = largest absolute coordinate of box and input).  One `intersect` evaluates
+  `a + (b - a) * (e - a') / (b' - a')` on exact float inputs with the quotient in [0, 1]: three roundings on
+  the product/quotient term (relative 5u of a term bounded by |b - a| ≤ 2M) and one on the sum (relative u
+  of a value bounded by M), so the first clipped point of a segment is within 12·u·M ≈ 1.4e-15·M of the
+  exact one; its clamped coordinate is exact.  A second `intersect` on the same segment starts from that
+  perturbed point: the perturbation of the interpolated coordinate is multiplied by at most the slope
+  (or inverse slope) S of the segment.  Segments with S > 1e4 are not judged in this branch
+  (`skip steep-segment`), so every returned vertex is within (1e4 + 1)·12·u·M < 1.4e-11·M of the exact
+  model's vertex.  The tolerance used is `tol = 1e-9 · max 1 M` (two orders of magnitude above the bound).
+  Returned vertices are accepted only with closed region code 0, so "inside the box" is tested exactly. -/
+
+def absMax (a b : Q) : Q := if a.abs ≤ b.abs then b.abs else a.abs
+
+/-- M: the largest absolute coordinate of the box corners and the input vertices -/
+def magnitude (box : Bound Q) (inp : List (Pt Q)) : Q :=
+  inp.foldl (fun m p => absMax m (absMax p.x p.y)) (absMax (absMax box.lo.x box.lo.y) (absMax box.hi.x box.hi.y))
+
+def tolOf (box : Bound Q) (inp : List (Pt Q)) : Q :=
+  let m := magnitude box inp
+  (if m ≤ 1 then 1 else m) / 1000000000
+
+/-- some input segment is neither horizontal nor vertical and steeper (or flatter) than 1e4 -/
+def hasSteep (inp : List (Pt Q)) : Bool :=
+  (inp.zip (inp.drop 1)).any fun (a, b) =>
+    let dx := (b.x - a.x).abs
+    let dy := (b.y - a.y).abs
+    dx != 0 && dy != 0 && (dy > 10000 * dx || dx > 10000 * dy)
+
+def nearPt (tol : Q) (a b : Pt Q) : Bool := (a.x - b.x).abs ≤ tol && (a.y - b.y).abs ≤ tol
+
+/-- consecutive points closer than `tol` are merged -/
+def dedupTol (tol : Q) (ps : List (Pt Q)) : List (Pt Q) :=
+  match ps with
+  | [] => []
+  | p :: rest =>
+    let rec go (prev : Pt Q) : List (Pt Q) → List (Pt Q)
+      | [] => []
+      | q :: t => if nearPt tol q prev then go prev t else q :: go q t
+    p :: go p rest
+
+def normPiecesTol (tol : Q) (l : List (List (Pt Q))) : List (List (Pt Q)) :=
+  l.map fun p => dropCollinearApprox (dedupTol tol p)
+
+/-- THE DOCUMENTED SITUATION of known finding C07-open-zero-length-touch, and nothing else: `p` lies on
+    the boundary of the box, and some input segment whose two end points are BOTH outside the closed box
+    meets the closed box in the single point `p` (it passes through a corner).  `tol = 0` when the float
+    arithmetic was exact on the case. -/
+def touchesFromOutside (box : Bound Q) (tol : Q) (inp : List (Pt Q)) (p : Pt Q) : Bool :=
+  inClosed box p && !strictlyInside box p &&
+  (inp.zip (inp.drop 1)).any fun (a, b) =>
+    !inClosed box a && !inClosed box b &&
+    match lbInterval box false a b with
+    | some (t0, t1) => t0 == t1 && nearPt tol (lerp a b t0) p
+    | none => false
+
+/-- the pieces `got` (normalised) equal `spec` except for extra pieces of at most one vertex, every one
+    of which is a touch from outside in the sense above -/
+def onlyOutsideTouchesExtra (box : Bound Q) (tol : Q) (inp : List (Pt Q))
+    (eqv : List (List (Pt Q)) → List (List (Pt Q)) → Bool) (got spec : List (List (Pt Q))) : Bool :=
+  eqv (got.filter fun p => p.length > 1) spec &&
+  (got.filter fun p => p.length ≤ 1).all fun p =>
+    match p with
+    | [v] => touchesFromOutside box tol inp v
+    | _ => false
+
+/-- the verdicts that known findings match: they may be given only when model and implementation agree -/
+def isKnownClass (s : String) : Bool :=
+  s == "propfail open-zero-length-touch" || s == "propfail missing-portion zero-length rounding-sensitive"
+
+/-- judgement of one `clip.LineString` result against the exact specification (no Float twin here) -/
+def judgeLine (b : Bound UInt64) (isOpen : Bool) (ps : List (Pt UInt64)) (mls : List (List (Pt UInt64))) : String :=
+  match boundQ b, ptsQ ps, mls.mapM ptsQ with
+  | some bq, some pq, some outq =>
+    if !(bq.lo.x < bq.hi.x && bq.lo.y < bq.hi.y) then "skip degenerate-box" else
+    let mq := line bq isOpen pq
+    let exact := match mq with
+      | some l => l == outq
+      | none => false
+    let spec := normPieces (specPieces bq isOpen pq)
+    let tol := tolOf bq pq
+    -- single-point pieces (zero-length touches of the boundary)
+    let strip (l : List (List (Pt Q))) : List (List (Pt Q)) := l.filter fun p => p.length > 1
+    let approxEq (x y : List (List (Pt Q))) : Bool :=
+      x.length == y.length && (x.zip y).all fun (p, q) =>
+        p.length == q.length && (p.zip q).all fun (u, v) => nearPt tol u v
+    let judge (gotN : List (List (Pt Q))) (isExact : Bool) : String :=
+      let spec := if isExact then spec else normPiecesTol tol spec
+      let eqv (x y : List (List (Pt Q))) : Bool := if isExact then x == y else approxEq x y
+      if eqv gotN spec then
+        (match pq with
+         | [] => "ok triv empty-input"
+         -- a one-vertex line has no segment: nothing is returned even when the vertex is inside the box
+         -- (theorem clip_one_vertex; "a line wholly inside is returned as is" starts at two vertices)
+         | [v] => if inClosed bq v then "ok triv one-vertex-inside-dropped" else "ok triv one-vertex-outside"
+         | _ =>
+          (if gotN.isEmpty then "ok none-inside" else if gotN.length > 1 then "ok multi-piece" else "ok one-piece")
+            ++ (if isExact then "" else " approx"))
+      else if isOpen && onlyOutsideTouchesExtra bq (if isExact then 0 else tol) pq eqv gotN spec then
+        "propfail open-zero-length-touch"
+      else if isOpen && eqv (strip gotN) spec then
+        "propfail spurious-zero-length-piece"
+      else if !isExact && approxEq (strip gotN) (strip spec) then
+        "propfail missing-portion zero-length rounding-sensitive"
+      else if (strip gotN).length < (strip spec).length then "propfail missing-portion"
+      else "propfail pieces-differ"
+    if !(outq.all fun piece => piece.all (inClosed bq)) then "propfail vertex-outside-box" else
+    if exact then judge (normPieces outq) true
+    else
+      (match mq with
+       | none => "propfail model-stuck"
+       | some l =>
+         -- the exact model itself must meet the spec (modulo the open-mode touch class) …
+         let mN := normPieces l
+         if !(mN == spec || (isOpen && onlyOutsideTouchesExtra bq 0 pq (· == ·) mN spec)) then "propfail exact-model-vs-spec"
+         else if hasSteep pq then "skip steep-segment rounding-sensitive"
+         -- … and the float result is judged with the tolerance `tol`
+         else judge (normPiecesTol tol outq) false)
+  | _, _, _ => "skip non-finite"
+
+/-- the implementation did not return within its time limit (outcome `hang`).  The label of known finding
+    C07-corner-rounding-nontermination is given only when the Float twin agrees: its inner loop runs out
+    of fuel (8 rounds; exact arithmetic needs at most 4 — theorem `line_total`) on the same input. -/
+def hangVerdict (twinStuck : Bool) : String :=
+  if twinStuck then "propfail nonterminating" else "propfail hang model-terminates"
+
+/-- `line <open> <box> <pts> => <mls> <idem> <unmod>` (or `=> hang`) -/
 def handleLine (inp out : Toks) : String :=
   match (do
     let (o, i) ← nat inp
@@ -148,6 +275,7 @@ def handleLine (inp out : Toks) : String :=
   | none => "bad input"
   | some (isOpen, b, ps) =>
     if out == ["panic"] then "propfail panic" else
+    if out == ["hang"] then hangVerdict ((line (boundF b) isOpen (ptsF ps)).isNone) else
     match (do
       let (mls, o) ← parseMls out
       let (idem, o) ← nat o
@@ -160,51 +288,57 @@ def handleLine (inp out : Toks) : String :=
       let ms := match m with | some l => showMlsF l | none => "stuck"
       let got := showMlsF (mls.map ptsF)
       let agree := ms == got
-      let fin (s : String) : String := if s.startsWith "propfail" || agree then s else "diff " ++ ms
+      -- a verdict that a known finding matches is given only when model and implementation agree
+      let fin (s : String) : String :=
+        if s.startsWith "propfail" then (if isKnownClass s && !agree then s ++ " and-model-differs " ++ ms else s)
+        else if agree then s else "diff " ++ ms
       fin <|
       if !unmod then "propfail input-modified" else
       if !idem then "propfail not-idempotent" else
-      -- exact instance
-      match boundQ b, ptsQ ps, mls.mapM ptsQ with
-      | some bq, some pq, some outq =>
-        if !(bq.lo.x < bq.hi.x && bq.lo.y < bq.hi.y) then "skip degenerate-box" else
-        -- vertices in the box (exact: the clipped coordinate is set to the edge value; the other one is interpolated)
-        let mq := line bq isOpen pq
-        let exact := match mq with
-          | some l => l == outq
-          | none => false
-        let spec := normPieces (specPieces bq isOpen pq)
-        -- single-point pieces (zero-length touches of the boundary)
-        let strip (l : List (List (Pt Q))) : List (List (Pt Q)) := l.filter fun p => p.length > 1
-        let close (a b : Q) : Bool := (a - b).abs ≤ (1 : Q) / 1000000000
-        let approxEq (x y : List (List (Pt Q))) : Bool :=
-          x.length == y.length && (x.zip y).all fun (p, q) =>
-            p.length == q.length && (p.zip q).all fun (u, v) => close u.x v.x && close u.y v.y
-        let judge (gotN : List (List (Pt Q))) (isExact : Bool) : String :=
-          let spec := if isExact then spec else normPiecesApprox spec
-          if (if isExact then gotN == spec else approxEq gotN spec) then
-            (if gotN.isEmpty then "ok none-inside" else if gotN.length > 1 then "ok multi-piece" else "ok one-piece")
-              ++ (if isExact then "" else " approx")
-          else if isOpen && (if isExact then strip gotN == spec else approxEq (strip gotN) spec) then
-            "propfail open-zero-length-touch"
-          else if !isExact && approxEq (strip gotN) (strip spec) then
-            "propfail missing-portion zero-length rounding-sensitive"
-          else if (strip gotN).length < (strip spec).length then "propfail missing-portion"
-          else "propfail pieces-differ"
-        if !(outq.all fun piece => piece.all fun v =>
-              bq.lo.x - 1/1000000000 ≤ v.x && v.x ≤ bq.hi.x + 1/1000000000 &&
-              bq.lo.y - 1/1000000000 ≤ v.y && v.y ≤ bq.hi.y + 1/1000000000) then "propfail vertex-outside-box" else
-        if exact then judge (normPieces outq) true
-        else
-          (match mq with
-           | none => "propfail model-stuck"
-           | some l =>
-             -- the exact model itself must meet the spec (modulo the open-mode touch class) …
-             let mN := normPieces l
-             if !(mN == spec || (isOpen && strip mN == spec)) then "propfail exact-model-vs-spec"
-             -- … and the float result is judged with a 1e-9 tolerance
-             else judge (normPiecesApprox outq) false)
-      | _, _, _ => "skip non-finite"
+      judgeLine b isOpen ps mls
+
+/-- `mls <open> <box> <k> <pts_1> … <pts_k> => <mls out> <unmod> <k> <mls_1> … <mls_k>`:
+    `out` = `clip.MultiLineString(box, members, OpenBound(open))`, `mls_i` = `clip.LineString` of member i
+    with the same option (each member is also sent as a `line` case and judged there against the
+    specification).  Judged here: bit-for-bit agreement with the Float twin `multiLineString`, and the
+    property of this entry point — the result is the concatenation of the member results, in order
+    (theorem `mls_concat_iff`). -/
+def handleMls (inp out : Toks) : String :=
+  match (do
+    let (o, i) ← nat inp
+    let (b, i) ← boundP i
+    let (ms, _) ← ptss i
+    pure (o == 1, b, ms)) with
+  | none => "bad input"
+  | some (isOpen, b, members) =>
+    if out == ["panic"] then "propfail panic" else
+    if out == ["hang"] then hangVerdict ((multiLineString (boundF b) isOpen (members.map ptsF)).isNone) else
+    match (do
+      let (res, o) ← ptss out
+      let (unmod, o) ← nat o
+      let (per, _) ← ptsss o
+      pure (res, unmod == 1, per)) with
+    | none => "bad output"
+    | some (res, unmod, per) =>
+      if per.length != members.length then "bad member-count" else
+      let m := multiLineString (boundF b) isOpen (members.map ptsF)
+      let ms := match m with | some l => showMlsF l | none => "stuck"
+      let got := showMlsF (res.map ptsF)
+      let perAgree := (members.zip per).all fun (mem, r) =>
+        (match line (boundF b) isOpen (ptsF mem) with | some l => showMlsF l | none => "stuck") == showMlsF (r.map ptsF)
+      let agree := ms == got && perAgree
+      let fin (s : String) : String := if s.startsWith "propfail" || agree then s else "diff " ++ ms
+      fin <|
+      if !unmod then "propfail input-modified" else
+      if got != showMlsF (per.flatten.map ptsF) then "propfail mls-not-concatenation" else
+      match members with
+      | [] => "ok triv mls-no-members"
+      | [_] => if res.isEmpty then "ok mls one-member none-inside" else "ok mls one-member"
+      | _ =>
+        let nonEmpty := (per.filter fun r => !r.isEmpty).length
+        if nonEmpty == 0 then "ok mls multi-member none-inside"
+        else if nonEmpty == 1 then "ok mls multi-member one-contributes"
+        else "ok mls multi-member several-contribute"
 
 def handle (ts : Toks) : String :=
   match ts with
@@ -212,6 +346,7 @@ def handle (ts : Toks) : String :=
     let (inp, out) := splitArrow rest
     match op with
     | "line" => handleLine inp out
+    | "mls" => handleMls inp out
     | _ => "bad op " ++ op
   | [] => "bad empty"
 
